@@ -574,6 +574,9 @@ int event_base_dispatch(struct event_base *b)
                 raise(sig);
             } while (--cnt > 0);
             step(b);
+        } else if (!strncmp(hdr, "RAISE ", 6)) {
+            /* signal now, but do not let the loop run yet */
+            raise(!strncmp(hdr + 6, "HUP", 3) ? SIGHUP : SIGUSR1);
         } else if (!strncmp(hdr, "RDFAULT ", 8)) {
             rdfault_errno = !strncmp(hdr + 8, "EINTR", 5) ? EINTR : EAGAIN;
             rdfault_count = atoi(hdr + 14) > 0 ? atoi(hdr + 14) : 1;
